@@ -7,6 +7,7 @@ G = 'photutils/psf/gridded_models.py::GriddedPSFModel'
 
 def register(reg):
     register_gaussians(reg)
+    register_relational(reg)
     reg.record('ImagePSF', {'oversampling': ('tuple', 'posreal', 'posreal'),
                             '_origin': ('tuple', 'real', 'real'),
                             'interpolator': ('ufunc', 'spline', 2),
@@ -147,4 +148,80 @@ def register_gaussians(reg):
                   f'(erf_((y - y_0 + 0.5) / ({s2} * fwhm * GAUSSIAN_FWHM_TO_SIGMA)) - '
                   f'erf_((y - y_0 - 0.5) / ({s2} * fwhm * GAUSSIAN_FWHM_TO_SIGMA)))')],
         mutants=[('dpix = 0.5', 'dpix = 0.25'), ('(y0 - dpix)', '(y0 + dpix)')],
+    ))
+
+
+ERF_MONOTONE = 'forall_real(lambda a, b: implies(a <= b, erf_(a) <= erf_(b)))'
+ERF_ODD = 'forall_real(lambda a: erf_(-a) == -erf_(a))'
+EXP_POSITIVE = 'forall_real(lambda a: exp_(a) > 0)'
+
+
+def register_relational(reg):
+    import z3
+    F = 'photutils/psf/functional_models.py::'
+    K = z3.Real('GAUSSIAN_FWHM_TO_SIGMA')
+    consts = {'GAUSSIAN_FWHM_TO_SIGMA': K}
+    kpos = 'GAUSSIAN_FWHM_TO_SIGMA > 0'
+    pt = {'x': 'real', 'y': 'real', 'flux': 'real', 'x_0': 'real', 'y_0': 'real'}
+    widths = {
+        'CircularGaussianPSF': {'fwhm': 'posreal'},
+        'GaussianPSF': {'x_fwhm': 'posreal', 'y_fwhm': 'posreal', 'theta': 'real'},
+        'GaussianPRF': {'x_fwhm': 'posreal', 'y_fwhm': 'posreal', 'theta': 'real'},
+        'CircularGaussianPRF': {'fwhm': 'posreal'},
+        'CircularGaussianSigmaPRF': {'sigma': 'posreal'},
+    }
+    for cls, w in widths.items():
+        prf = cls.endswith('PRF')
+        lemma = ERF_MONOTONE if prf else EXP_POSITIVE
+        params = {'self': ('record', cls, {}), **pt, **w}
+        reg.add(Contract(
+            target=F + cls + '.evaluate', props=['C13'], kind='method', tag='linear-in-flux',
+            params=dict(params), requires=[kpos], consts=consts,
+            relate={'extra': {'k': 'real'}, 'second': {'flux': 'k * flux'}},
+            ensures=[('scales-with-flux', 'result2 == k * result')],
+            mutants=[('flux / 4', '(flux + 1) / 4')] if prf else
+                    [('flux / (2 * np.pi', 'flux ** 2 / (2 * np.pi')],
+        ))
+        reg.add(Contract(
+            target=F + cls + '.evaluate', props=['C13'], kind='method', tag='non-negative',
+            params=dict(params), requires=[kpos, 'flux >= 0', lemma], consts=consts,
+            ensures=[('non-negative', 'result >= 0')],
+            note=('erf is monotone' if prf else 'exp is positive') + ' (assumed lemma about the '
+                 'uninterpreted function)',
+            mutants=[('- dpix', '+ 3 * dpix')] if prf else [],
+        ))
+        if cls == 'GaussianPRF':
+            # point symmetry of the rotated PRF needs erf oddness under products of sin/cos and
+            # the widths: decided only by the third back end after ~25 s, i.e. unstable under
+            # load; left to the bounded driver
+            continue
+        reg.add(Contract(
+            target=F + cls + '.evaluate', props=['C13'], kind='method', tag='centred',
+            params=dict(params), requires=[kpos] + ([ERF_ODD] if prf else []), consts=consts,
+            relate={'second': {'x': '2 * x_0 - x', 'y': '2 * y_0 - y'}},
+            ensures=[('point-symmetric-about-x0-y0', 'result2 == result')],
+            note='erf is odd (assumed lemma)' if prf else '',
+            mutants=[('x - x_0 + dpix', 'x - x_0 + 1.5 * dpix')] if cls == 'CircularGaussianSigmaPRF'
+                    else [('(x0 + dpix)', '(x0 + 1.5 * dpix)')] if cls == 'CircularGaussianPRF' else
+                    ([('(x - x_0) ** 2', '(x - x_0 - 1) ** 2')] if cls == 'CircularGaussianPSF'
+                     else []),
+        ))
+    s2 = 'sqrt_(2)'
+    reg.add(Contract(
+        target=F + 'CircularGaussianSigmaPRF.evaluate', props=['C13'], kind='method',
+        params={'self': ('record', 'CircularGaussianSigmaPRF', {}), **pt, 'sigma': 'posreal'},
+        requires=[kpos], consts=consts,
+        ensures=[('erf-difference-formula',
+                  'result == flux / 4 * '
+                  f'(erf_((x - x_0 + 0.5) / ({s2} * sigma)) - erf_((x - x_0 - 0.5) / ({s2} * sigma))) * '
+                  f'(erf_((y - y_0 + 0.5) / ({s2} * sigma)) - erf_((y - y_0 - 0.5) / ({s2} * sigma)))'),
+                 # agreement with the FWHM-parametrised form (CircularGaussianPRF closed form
+                 # at fwhm = sigma / GAUSSIAN_FWHM_TO_SIGMA)
+                 ('agrees-with-fwhm-form',
+                  'result == flux / 4 * '
+                  f'(erf_((x - x_0 + 0.5) / ({s2} * (sigma / GAUSSIAN_FWHM_TO_SIGMA) * GAUSSIAN_FWHM_TO_SIGMA)) - '
+                  f'erf_((x - x_0 - 0.5) / ({s2} * (sigma / GAUSSIAN_FWHM_TO_SIGMA) * GAUSSIAN_FWHM_TO_SIGMA))) * '
+                  f'(erf_((y - y_0 + 0.5) / ({s2} * (sigma / GAUSSIAN_FWHM_TO_SIGMA) * GAUSSIAN_FWHM_TO_SIGMA)) - '
+                  f'erf_((y - y_0 - 0.5) / ({s2} * (sigma / GAUSSIAN_FWHM_TO_SIGMA) * GAUSSIAN_FWHM_TO_SIGMA)))')],
+        mutants=[('dpix = 0.5', 'dpix = 0.45'), ('(np.sqrt(2) * sigma)))))', '(2 * sigma)))))')],
     ))
